@@ -857,13 +857,18 @@ static int run_cmd(struct ctx *c, char **t, int nt) {
     const char *T = ARG(1); int viafile = strstr(ARG(2), "file") != NULL, parsed = ARG(2)[0] == 'p'; char *dir = tokstr(ARG(3), NULL);
     uint64_t count = 0, bad = 0, firstbad = 0; econf_file *kf = NULL, *rd = NULL;
     /* origin of the object the values are set on (letter in front of direct / file, behind the optional o): p = parsed from a file
-       that begins with a section header, e = parsed from a file WITHOUT any key (comment and blank lines only), n = made by
+       that begins with a section header, e = parsed from a file WITHOUT any key (comment and blank lines only), u = parsed from a file that defines keys twice, n = made by
        econf_newKeyFile_with_options (no tags: direct only), i = econf_newIniFile; none = econf_newKeyFile */
     { const char *m = ARG(2); if (*m == 'o') m++;
       parsed = *m == 'p';
-      if (*m == 'e' || *m == 'n' || *m == 'i') {
+      if (*m == 'e' || *m == 'n' || *m == 'i' || *m == 'u') {
         econf_err be = 0;
-        if (*m == 'e') { char *bp; if (asprintf(&bp, "%s/rtm-empty.conf", dir) < 0) bp = NULL; mkparent(bp);
+        if (*m == 'u') {          /* parsed from a file that defines the first keys of the matrix TWICE each (the setter and the getter of a key
+                                     defined twice both mean its first definition) */
+          char *bp; if (asprintf(&bp, "%s/rtm-dup.conf", dir) < 0) bp = NULL; mkparent(bp);
+          const char *txt = "k3=1\nk3=2\n[a]\nk0=1\nk0=2\n[g1]\nk1=5\nk1=6\n[grp22]\nk2=1\nk2=2\n";
+          wfile(bp, txt, strlen(txt)); be = econf_readFile(&kf, bp, "=", "#"); free(bp); }
+        else if (*m == 'e') { char *bp; if (asprintf(&bp, "%s/rtm-empty.conf", dir) < 0) bp = NULL; mkparent(bp);
           wfile(bp, "# nothing but a comment\n\n", 25); be = econf_readFile(&kf, bp, "=", "#"); free(bp); }
         else if (*m == 'n') be = econf_newKeyFile_with_options(&kf, "");
         else be = econf_newIniFile(&kf);
